@@ -7,7 +7,8 @@ offset data-dependent on the append (C06.c); every reader of record bytes at an
 index-derived offset treats zero as missing (C06.d); every store goes through the atomic
 writer with the location the readers open (C06.e).
 Added in round 5: storage modules do not write through raw descriptors and do not copy files into
-place (C06.g)."""
+place (C06.g).
+Added in round 6: the temporary bundle of a defragmentation starts empty (C06.h, shared C19.g)."""
 import ast
 
 from ..engine import rule
@@ -458,3 +459,11 @@ def c06g(ctx):
                   fail='%s writes a storage file outside the judged routines: %s' % (rel, '; '.join(sorted(set(bad)))[:200]))
     if n < 8:
         raise Undecided('only %d storage modules found' % n)
+
+
+@rule('C06.h', floor=2)
+def c06h(ctx):
+    """shared rule C19.g, re-evaluated for this property: what an interrupted defragmentation left behind never becomes visible as
+    tiles of another bundle -- the temporary bundle is emptied before a bundle is rewritten into it"""
+    from ..engine import share
+    share(ctx, 'C19', {'C19.g'})
